@@ -15,7 +15,8 @@ VERIF = os.path.dirname(os.path.dirname(os.path.abspath(__file__)))
 REPO = os.environ.get("VERIF_REPO", "/repo")
 COQ = os.path.join(VERIF, "coq")
 WORK = os.path.join(VERIF, ".work")
-BIN = os.path.join(WORK, "bin")
+BIN = os.environ.get("VERIF_BIN", os.path.join(WORK, "bin"))
+HARNESS_DIR = os.environ.get("VERIF_HARNESS_DIR", os.path.join(VERIF, "harness"))
 REPLAYS = os.path.join(VERIF, "replays")
 EVID = os.path.join(VERIF, "evidence")
 
@@ -68,7 +69,7 @@ class Lock:
 def build_harness(race=False):
     """go build of /verif/harness against /repo's current working tree, tag verif."""
     os.makedirs(BIN, exist_ok=True)
-    hdir = os.path.join(VERIF, "harness")
+    hdir = HARNESS_DIR
     name = "harness-race" if race else "harness"
     with Lock("gobuild"):
         shutil.copyfile(os.path.join(REPO, "go.sum"), os.path.join(hdir, "go.sum"))
